@@ -125,4 +125,83 @@ theorem C02_no_overwrite_after_restart {c : Cfg} (hss : 0 < c.ss) {w : World} (h
     · exact List.mem_append_left _ (List.mem_append_left _ hb)
     · exact List.mem_append_left _ (List.mem_append_right _ hb)
 
+/-! ## The hypotheses are satisfiable: a concrete history
+
+Geometry: 4-byte sectors, 8-byte blocks, 3 blocks.  One upload of 5 bytes under key 7 (content
+token 100), its index record, a full commit by `ProcessBlockPut` (data sync, state file written and
+made durable, `NotifyPersistentStateWritten`), then a crash that keeps the pending index record, and a
+restart. -/
+namespace Example
+
+def c : Cfg := ⟨4, 8, 3⟩
+def w0 : World := World.fresh c
+def w1 : World := (w0.pushBack).getD w0
+def w2 : World := match w1.reserve 0 5 7 true with | .ok _ w => w | _ => w1
+def w3 : World := (w2.copy 0 100).getD w2
+def w4 : World := match w3.finalize 0 with | .ok w => w | _ => w3
+def w5 : World := (w4.recWrite 2 7 0 0 0 5).getD w4
+def w6 : World := (w5.g1Start).getD w5
+def w7 : World := (w6.syncBegin).getD w6
+def w8 : World := (w7.syncEnd).getD w7
+def w9 : World := (w8.g1Completed false).getD w8
+def w10 : World := (w9.swBegin 1).getD w9
+def w11 : World := (w10.swStep).getD w10
+def w12 : World := (w11.swStep).getD w11
+def w13 : World := (w12.swStep).getD w12
+def w14 : World := (w13.swStep).getD w13
+def w15 : World := (w14.swStep).getD w14
+def w16 : World := (w15.swStep).getD w15
+def w17 : World := (w16.swDone).getD w16
+def w18 : World := w17.crashRestart [] [true] 0 false
+
+def o0 : Obj := ⟨0, 0, 0, 0, 5, 7, 0, true, 0, false, true, none, false, false⟩
+
+theorem reach17 : Reach c w17 := by
+  have r0 : Reach c w0 := Reach.init
+  have r1 : Reach c w1 := Reach.step r0 (Step.pushBack (w' := w1) (by rfl))
+  have r2 : Reach c w2 := Reach.step r1 (Step.reserve (o := o0) (w' := w2) (i := 0) (size := 5) (key := 7) (upload := true) (by rfl))
+  have r3 : Reach c w3 := Reach.step r2 (Step.copy (o := o0) (id := 0) (data := 100) (w' := w3) (by rfl) rfl (by rfl))
+  have r4 : Reach c w4 := Reach.step r3 (Step.finalize (id := 0) (w' := w4) (by rfl))
+  have r5 : Reach c w5 := Reach.step r4 (Step.recWrite (w := w4) (w' := w5) (slot := 2) (key := 7) (att := 0) (abs := 0) (off := 0)
+    (size := 5) (o := { o0 with data := 100, copied := true, fin := some 1 })
+    (b := { gid := 0, slot := 0, cursor := 5, written := 5, epochCount := 1 })
+    (by decide) rfl rfl rfl rfl (by decide) (by rfl) rfl (by rfl))
+  have r6 : Reach c w6 := Reach.step r5 (Step.g1Start (w' := w6) (by rfl))
+  have r7 : Reach c w7 := Reach.step r6 (Step.syncBegin (w' := w7) (by rfl))
+  have r8 : Reach c w8 := Reach.step r7 (Step.syncEnd (w' := w8) (by rfl))
+  have r9 : Reach c w9 := Reach.step r8 (Step.g1Completed (shutdown := false) (w' := w9) (by rfl))
+  have r10 : Reach c w10 := Reach.step r9 (Step.swBegin (owner := 1) (w' := w10) (by rfl))
+  have r11 : Reach c w11 := Reach.step r10 (Step.swStep (w' := w11) (by rfl))
+  have r12 : Reach c w12 := Reach.step r11 (Step.swStep (w' := w12) (by rfl))
+  have r13 : Reach c w13 := Reach.step r12 (Step.swStep (w' := w13) (by rfl))
+  have r14 : Reach c w14 := Reach.step r13 (Step.swStep (w' := w14) (by rfl))
+  have r15 : Reach c w15 := Reach.step r14 (Step.swStep (w' := w15) (by rfl))
+  have r16 : Reach c w16 := Reach.step r15 (Step.swStep (w' := w16) (by rfl))
+  exact Reach.step r16 (Step.swDone (w' := w17) (by rfl))
+
+theorem reach18 : Reach c w18 := Reach.step reach17 (Step.crashRestart [] [true] 0 false)
+
+/-- `C02_served_bytes_correct`: after the crash the record of key 7 resolves (block 0). -/
+example : w18.idx.curGet 2 = some ⟨1, 0, 7, 0, 0, 5, 1⟩ ∧ w18.resolve ⟨1, 0, 7, 0, 0, 5, 1⟩ = some 0 := ⟨by rfl, by rfl⟩
+
+/-- ... and is served with the uploaded content (what the theorem promises, computed). -/
+example : (w18.readAt 0 0 5).map (·.data) = some 100 := by rfl
+
+/-- `C02_epoch_covered`, `C02_record_valid_after_restart`: the durable state file lists epoch 1 in
+block 0, and the object was finalized in it. -/
+example : ∃ f bs o, f ∈ filesOf w17.dir ∧ f.blocks[0]? = some bs ∧ o ∈ w17.objs ∧ bs.gid = o.gid ∧ o.fin = some 1 ∧
+    1 < f.oldest + (fseeds f.blocks).length :=
+  ⟨⟨1, [⟨0, 0, 5, [1]⟩]⟩, ⟨0, 0, 5, [1]⟩, { o0 with data := 100, copied := true, fin := some 1, durable := true },
+    by decide, by rfl, by decide, rfl, rfl, by decide⟩
+
+example : (⟨1, 0, 7, 0, 0, 5, 1⟩ : PRec) ∈ recsOf w17.idx ∧
+    ((⟨1, [⟨0, 0, 5, [1]⟩]⟩ : SFile).pbl 4).refToIdx 1 0 = some (0, 1) := ⟨by decide, by rfl⟩
+
+/-- `C02_no_overwrite_after_restart`: after the restart the object is a restored one, its block is
+held with attach cursor 8 = ⌈5/4⌉·4. -/
+example : ∃ o ∈ w18.objs, o.mine = false ∧ ∃ b ∈ held w18.pbl w18.zombies, b.gid = o.gid ∧ b.base = 8 :=
+  ⟨_, List.mem_cons_self, rfl, _, List.mem_cons_self, rfl, rfl⟩
+
+end Example
+
 end BB.C02
